@@ -1371,6 +1371,73 @@ pub fn run_c15(ctx: &Ctx) -> i32 {
             Err(e) => report_obs_err(ctx, "metadata", idx, &case, &ObsErr::Enc(e), out),
         }
     });
+    // streams a user assembles frame by frame with Stream::add_frame and nothing else (no
+    // set_block_sizes afterwards: STREAMINFO keeps what add_frame derived, e.g. a minimum block size
+    // below 16 after a short last block, or a one-frame stream whose bounds are that frame's):
+    // they are serialised by this library, so its parser must take them back
+    let n = ctx.tier.pick(600, 20_000);
+    run_cases(ctx, "assembled", n, &mut out, |idx, out| {
+        use flacenc::source::{Context, FrameBuf, Source};
+        let mut rng = Rng::for_case(ctx.seed, "C15.assembled", idx);
+        let mut case = gen_case(&mut rng, &Limits { max_samples: 3000, max_blocks: 4, max_block_size: 512, ..Limits::default() });
+        // tails: 1..=15 (below the smallest legal minimum), 16, 17, 31, none
+        let tail = match idx % 6 {
+            0 => 1 + rng.usize_below(15),
+            1 => 16,
+            2 => 17 + rng.usize_below(15),
+            3 => 0,
+            _ => rng.usize_below(case.block),
+        };
+        let full = (idx as usize / 6) % 3;
+        let want = (full * case.block + tail).max(1);
+        let mut a = (*case.audio).clone();
+        let ch = a.channels;
+        while a.samples.len() < want * ch {
+            let l = a.samples.len().max(ch);
+            let ext: Vec<i32> = (0..l).map(|i| a.samples.get(i).copied().unwrap_or(0)).collect();
+            a.samples.extend(ext);
+        }
+        a.samples.truncate(want * ch);
+        case.audio = Arc::new(a);
+        let Ok(v) = enc::verified(&case.cfg) else { return };
+        let audio = Arc::clone(&case.audio);
+        let block = case.block;
+        let r = crate::common::catch(|| -> Result<flacenc::component::Stream, flacenc::error::EncodeError> {
+            let mut src = TestSource::new(Arc::clone(&audio), case.mode, false);
+            let mut stream = flacenc::component::Stream::new(audio.rate, audio.channels, audio.bps)?;
+            let mut fb_ctx = (FrameBuf::with_size(audio.channels, block)?, Context::new(audio.bps, audio.channels));
+            loop {
+                let read = src.read_samples(block, &mut fb_ctx)?;
+                if read == 0 {
+                    break;
+                }
+                let frame = flacenc::encode_fixed_size_frame(&v, &fb_ctx.0, fb_ctx.1.current_frame_number().unwrap(), stream.stream_info())?;
+                stream.add_frame(frame);
+            }
+            stream.stream_info_mut().set_md5_digest(&fb_ctx.1.md5_digest());
+            stream.stream_info_mut().set_total_samples(fb_ctx.1.total_samples());
+            Ok(stream)
+        });
+        match r {
+            Ok(Ok(stream)) => match enc::to_bytes(&stream) {
+                Ok(bytes) => {
+                    let rep = refdec::decode_stream(&bytes);
+                    out.evaluations += 1;
+                    out.count("sub_assembled");
+                    if rep.info.min_block < 16 {
+                        out.count("assembled_streams_with_min_block_below_16");
+                    }
+                    out.distinct.insert(case.key() ^ 0xA55E);
+                    let delivered = case.audio.frames();
+                    let obs = Observed { stream, bytes, rep, delivered, reads: 0 };
+                    oracle_c15(ctx, "assembled", idx, &case, &obs, out);
+                }
+                Err(e) => report_obs_err(ctx, "assembled", idx, &case, &ObsErr::Ser(e, stream_placeholder()), out),
+            },
+            Ok(Err(e)) => out.violation("C15|assembled|encode-error", format!("{e}"), json!({"sub": "assembled", "index": idx, "case": case.describe()})),
+            Err(p) => out.violation(format!("C15|assembled|panic|{}", p.site()), p.short(), json!({"sub": "assembled", "index": idx, "case": case.describe()})),
+        }
+    });
     // streams assembled from CONSTRUCTED predictive subframes (public constructors): every partition
     // order the block length allows (down to one-sample partitions), predictor orders up to the
     // length of the first partition - half of them exactly equal to it, so that the first
